@@ -32,12 +32,15 @@ struct Actor {
     std::function<void()> on_tick;
     std::int64_t tick_period = 0, next_tick = 0;
     bool tick_enabled = true;
+    bool scripted = false;  // harness-only process (scripted client/peer): its memory traffic is not the repository's (sk::Quiet)
 
     void start(const std::string& n, std::uint32_t h, std::size_t stack = 8u << 20) {
         name = n; host = h;
         pid = sk::spawn(n, h, [this] { loop(); return 0; }, stack);
     }
     void loop() {
+        std::optional<sk::Quiet> quiet;
+        if (scripted) quiet.emplace();
         while (!stop_flag) {
             if (!q.empty()) {
                 auto fn = std::move(q.front());
